@@ -89,6 +89,11 @@ impl Loc {
 }
 
 impl Cmd {
+    /// Whether the command lets the program execute instructions.
+    pub fn resumes(&self) -> bool {
+        matches!(self, Cmd::StepOver | Cmd::StepInto(_) | Cmd::StepOut | Cmd::Continue)
+    }
+
     /// What is typed at the debugger prompt.
     pub fn text(&self) -> String {
         match self {
